@@ -1,7 +1,7 @@
 #!/bin/bash
 # tools/mk_worktree.sh <name>: scratch git worktree of /repo at /tmp/gw-<name> with the prebuilt extension modules copied in
 set -e
-d=/tmp/gw-$1
+d=/tmp/${2:-gw}-$1
 git -C /repo worktree remove --force "$d" 2>/dev/null || true
 rm -rf "$d"
 git -C /repo worktree add --detach "$d" HEAD >/dev/null 2>&1
